@@ -74,10 +74,15 @@ class SSet(SV):
 
     def setid(self, ex):
         if self.sid is None:
-            if ex is None or ex.spec_mode:
-                raise Unsupported('a constructed set passed to a specification function inside a specification')
-            self.sid = fresh('set', vl.SetS)
+            if ex is None or getattr(ex, 'no_assume', False):
+                raise Unsupported('a constructed set passed to a specification function inside a definition')
             k = fresh('k', Val)
+            if self.pred is None and self.exc is None:
+                # the set of a sequence's elements is a function of the sequence (two mentions of the
+                # same sequence name the same set)
+                self.sid = vl.set_of_seq(self.inc)
+            else:
+                self.sid = fresh('set', vl.SetS)
             ex.assume(z3.ForAll([k], vl.set_mem(self.sid, k) == self.mem(k)))
         return self.sid
 
@@ -250,6 +255,7 @@ class Engine:
             f, kinds, retk = self.spec_funcs[name]
             params = []
             ex = Exec(self, None, None, spec_mode=True)
+            ex.no_assume = True
             env = {}
             for p, ty in c.params:
                 zs = [z3.Const('%s_%s_%d' % (name, p, j), srt) for j, srt in enumerate(self.kind_sorts(ty))]
